@@ -70,7 +70,8 @@ Dedup(seq) == IF seq = <<>> THEN <<>>
 
 \* ---- heaps -----------------------------------------------------------------
 NewList(heap, elems) == Append(heap, elems)            \* the new object's id is Len(heap) + 1
-FnObj(k, w, pre, snap, post) == [k |-> k, w |-> w, pre |-> pre, snap |-> snap, post |-> post]
+\* (own: for a plain function the class statement that defined it - what `Class.member` resolves to is observable)
+FnObj(k, w, pre, snap, post) == [k |-> k, w |-> w, pre |-> pre, snap |-> snap, post |-> post, own |-> 0]
 
 \* walk the decorator stack (__wrapped__) and return the LAST object carrying contract lists (find_checker)
 RECURSIVE FindChecker(_, _, _)
@@ -157,7 +158,7 @@ BuildMembers(fh, lh, nsp, i) ==
   IF i > Len(CD.members) THEN [fh |-> fh, lh |-> lh, ns |-> nsp, err |-> "ok"]
   ELSE LET m  == CD.members[i]
            f0 == Len(fh) + 1
-           r  == ApplyDecos(Append(fh, FnObj("plain", 0, 0, 0, 0)), lh, f0, m.decos, 1)
+           r  == ApplyDecos(Append(fh, [FnObj("plain", 0, 0, 0, 0) EXCEPT !.own = step]), lh, f0, m.decos, 1)
        IN IF "share" \in DOMAIN m /\ m.share = 1
             THEN \* the accessor is the very function object of the (first) base: `@Base.f.getter` keeps Base's setter
                  LET inh == Lookup(cl, CD.bases[1], m.name) IN
@@ -463,8 +464,10 @@ CountForeign(fh, f) == (IF fh[f].k = "foreign" THEN 1 ELSE 0) + (IF fh[f].w = 0 
 
 MemberView(ch, fh, lh, k, name) ==
   LET mem == Lookup(ch, k, name) IN
-  IF mem.kind = "none" THEN [kind |-> "none", pre |-> <<>>, snap |-> <<>>, post |-> <<>>, invw |-> FALSE, nchk |-> 0, nfor |-> 0]
+  IF mem.kind = "none" THEN [kind |-> "none", pre |-> <<>>, snap |-> <<>>, post |-> <<>>, invw |-> FALSE, nchk |-> 0, nfor |-> 0,
+                             orig |-> 0]
   ELSE [kind |-> mem.kind, pre |-> EffPreOf(fh, lh, mem.f), snap |-> EffSnapOf(fh, lh, mem.f),
+        orig |-> fh[Bottom(fh, mem.f)].own,      \* the class whose definition the name resolves to
         post |-> EffPostOf(fh, lh, mem.f), invw |-> IsInvWrapped(fh, mem.f),
         nchk |-> CountCheckers(fh, mem.f), nfor |-> CountForeign(fh, mem.f)]
 
